@@ -73,7 +73,9 @@ const VALIDATORS: [&ValidatorFn; 8] = [&v0, &v1, &v2, &v3, &v4, &v5, &v6, &v7];
 
 // the last four look like paths / pointers / indices into the payload: a validator registered under such a name is a
 // validator for a member of exactly that name (normally absent), never for the member the "path" would lead to
-const KEYS: [&str; 15] = ["iss", "sub", "aud", "jti", "a", "b", "c", "iat", "é", "exp", "nbf", "/iss", "/a", "a.b", "0"];
+const KEYS: [&str; 23] = ["iss", "sub", "aud", "jti", "a", "b", "c", "iat", "é", "exp", "nbf", "/iss", "/a", "a.b", "0",
+  // names that differ from the ones above only by characters that do not render, or by their width: keys of their own
+  "a\u{200b}", "\u{2060}b", "c\u{fe0f}", "s\u{200d}ub", "is\u{ad}s", "\u{ff41}", "\u{ff49}\u{ff53}\u{ff53}", "e\u{301}"];
 
 #[derive(Clone, Debug, Serialize, Deserialize, PartialEq)]
 pub enum Corruption {
@@ -292,10 +294,15 @@ impl Sub for Validators {
       }
       if c.via_extend && id % 2 == 1 && c.layer == Layer::Generic {
         // the other public way: the claim is checked, its validator arrives through extend_validation_claims
-        if parser.check(spec).is_err() || !parser.extend_validators(&[(k.clone(), VALIDATORS[*id])]) {
+        // (the two calls in either order: they are independent settings)
+        let validator_first = c.seed[8] % 2 == 1;
+        if validator_first && !parser.extend_validators(&[(k.clone(), VALIDATORS[*id])]) {
           return Verdict::Discard;
         }
-        cl.tag("registered-via-extend_validation_claims");
+        if parser.check(spec).is_err() || (!validator_first && !parser.extend_validators(&[(k.clone(), VALIDATORS[*id])])) {
+          return Verdict::Discard;
+        }
+        cl.tag(if validator_first { "registered-via-extend_validation_claims:validator-before-claim" } else { "registered-via-extend_validation_claims" });
       } else if parser.validate(spec, VALIDATORS[*id]).is_err() {
         return Verdict::Discard;
       } else if c.via_extend && id % 3 == 2 && c.layer == Layer::Generic {
@@ -477,7 +484,7 @@ fn case(proto: Proto, layer: Layer) -> BoxedStrategy<ValCase> {
     1 => any::<u8>().prop_map(Corruption::Truncate),
   ];
   // the batteries-included parser has its own validators for exp/nbf; iat (index 7) only carries plain values here
-  let tok = (vec((0u8..15, member_value()), 0..5), corruption, prop_oneof![12 => Just(None), 1 => (0u8..5).prop_map(Some)]).prop_map(|(members, corruption, non_object)| TokVar { members, corruption, non_object });
+  let tok = (vec((0u8..23, member_value()), 0..5), corruption, prop_oneof![12 => Just(None), 1 => (0u8..5).prop_map(Some)]).prop_map(|(members, corruption, non_object)| TokVar { members, corruption, non_object });
   // histories: some tokens repeat the previous one verbatim (same text), authentic again or presented under a wrong key /
   // footer / assertion - a parser that remembers its last token must not behave differently
   let toks = vec((tok, 0u8..8), 1..=6).prop_map(|v| {
@@ -493,7 +500,7 @@ fn case(proto: Proto, layer: Layer) -> BoxedStrategy<ValCase> {
     out
   });
   let behaviour = prop_oneof![3 => 0u8..5, 2 => 5u8..30, 1 => 30u8..40];
-  (gen::bytes32(), vec((0u8..15, behaviour), 0..5), toks, prop_oneof![Just(None), gen::jsonish(6).prop_map(Some)], prop_oneof![Just(None), gen::jsonish(6).prop_map(Some)], any::<bool>(), prop_oneof![3 => Just(None), 1 => (0u8..4).prop_map(Some)], prop_oneof![3 => Just(vec![]), 1 => vec((0u8..15, 0u8..4), 1..3)])
+  (gen::bytes32(), vec((0u8..23, behaviour), 0..5), toks, prop_oneof![Just(None), gen::jsonish(6).prop_map(Some)], prop_oneof![Just(None), gen::jsonish(6).prop_map(Some)], any::<bool>(), prop_oneof![3 => Just(None), 1 => (0u8..4).prop_map(Some)], prop_oneof![3 => Just(vec![]), 1 => vec((0u8..23, 0u8..4), 1..3)])
     .prop_map(move |(seed, validators, tokens, footer, assertion, via_extend, late_from, checks)| ValCase { proto, layer, seed, validators, tokens, footer, assertion, via_extend, late_from, checks })
     .boxed()
 }
